@@ -374,6 +374,7 @@ def program(r, size=3):
 # stage 12: functions that return closures (over their parameters and a mutable local), passed on to function parameters.
 # stage 13: function-valued constants  c :: mk(e)  /  c :: f : called by name and passed on.
 # stage 14: computed callees  mk(e)(a)  and lambdas called where they are written.
+# stage 15: `ret` of a function value as the last statement of a function that returns a function.
 
 class FragGen:
     def __init__(self, r, stage=1):
@@ -675,8 +676,9 @@ class FragGen:
         f = self.fresh("mk")
         p = self.fresh("p")
         out = ["%s :: fn %s: int -> fn int -> int do" % (f, p)]
+        rt = "ret " if self.stage >= 15 and r.random() < 0.6 else ""
         if env.get("makers") and r.random() < 0.3:
-            out.append("  %s(%s + %d)" % (r.choice(env["makers"]), p, r.randint(0, 9)))
+            out.append("  %s%s(%s + %d)" % (rt, r.choice(env["makers"]), p, r.randint(0, 9)))
         else:
             fenv = {"ints": list(env["ints"]) + [p], "bools": list(env["bools"]), "muts": [], "funs": list(env.get("funs", [])),
                     "hofs": list(env.get("hofs", []))}
@@ -686,7 +688,7 @@ class FragGen:
                 fenv["ints"].append(c); fenv["muts"].append(c)
             z = self.fresh("z")
             fenv["ints"].append(z)
-            out.append("  fn %s: int -> int do" % z)
+            out.append("  %sfn %s: int -> int do" % (rt, z))
             if fenv["muts"]:
                 out.append("    %s += %s" % (fenv["muts"][0], r.choice([z, "1", p])))
             out.append("    %s" % self.int_expr(fenv, 1))
